@@ -77,6 +77,7 @@ type pqRun struct {
 	c3    test.Cluster
 	evals int
 	noStd bool // the time field of this round was created with noStandardView
+	cross bool // the query being asked shifts a column over a shard boundary (recorded finding)
 }
 
 func (r *pqRun) fail(props []string, sig, what string) {
@@ -117,7 +118,14 @@ func (r *pqRun) query(q string) (interface{}, bool) {
 		if err3 != nil {
 			r.fail([]string{"C17"}, "query-error-3node:"+strings.SplitN(q, "(", 2)[0], fmt.Sprintf("%s: %v", q, err3))
 		} else if !reflect.DeepEqual(pqNorm(res1.Results[0]), pqNorm(res3.Results[0])) {
-			r.fail([]string{"C17"}, "placement:"+strings.SplitN(q, "(", 2)[0], fmt.Sprintf("%s: 1-node %v, 3-node %v", q, pqNorm(res1.Results[0]), pqNorm(res3.Results[0])))
+			sig := "placement:" + strings.SplitN(q, "(", 2)[0]
+			if r.cross {
+				// the recorded Shift finding also shows as a placement difference (the
+				// carried column sits in the segment of the shard it left, so even the
+				// order of the columns depends on how shards are grouped)
+				sig = "placement-shift-across-shards"
+			}
+			r.fail([]string{"C17"}, sig, fmt.Sprintf("%s: 1-node %v, 3-node %v", q, pqNorm(res1.Results[0]), pqNorm(res3.Results[0])))
 		}
 	}
 	return res1.Results[0], true
@@ -333,6 +341,7 @@ func (r *pqRun) checkAll(m *pqModel, rng *rand.Rand) {
 		if cross {
 			sig = "algebra-shift-across-shards"
 		}
+		r.cross = cross
 		r.expectCols([]string{"C15"}, sig, fmt.Sprintf("Shift(Row(s=%d), n=1)", row), sortedCols(out))
 		other := pqRows[(int(row)+1)%len(pqRows)]
 		both := map[uint64]bool{}
@@ -342,6 +351,7 @@ func (r *pqRun) checkAll(m *pqModel, rng *rand.Rand) {
 			}
 		}
 		r.expectCols([]string{"C15"}, sig, fmt.Sprintf("Intersect(Shift(Row(s=%d), n=1), Row(s=%d))", row, other), sortedCols(both))
+		r.cross = false
 	}
 	for i := 0; i < 8; i++ {
 		crossShift = false
@@ -350,12 +360,14 @@ func (r *pqRun) checkAll(m *pqModel, rng *rand.Rand) {
 		if crossShift {
 			sig, csig = "algebra-shift-across-shards", "count-shift-across-shards"
 		}
+		r.cross = crossShift
 		r.expectCols([]string{"C15"}, sig, e.q, sortedCols(e.set))
 		if v, ok := r.query("Count(" + e.q + ")"); ok {
 			if n, _ := v.(uint64); int(n) != len(e.set) {
 				r.fail([]string{"C15"}, csig, fmt.Sprintf("Count(%s) = %v, model %d", e.q, v, len(e.set)))
 			}
 		}
+		r.cross = false
 	}
 	// ---- integer conditions (C14) ----
 	preds := append([]int64{-1001, 1001, -9, 9, -16, 17}, pqVals...)
